@@ -189,6 +189,8 @@ pub enum WeightKind {
     Wide,
     WithZeros,
     WithNegatives,
+    /// all weights equal, but not 1 (e.g. 1/sigma with one shared sigma)
+    Constant,
 }
 
 pub struct DataGen {
@@ -214,6 +216,15 @@ pub fn gen_weights(rng: &mut Rng, kind: WeightKind, n: usize, width: Width) -> O
             }
             w
         }
+        WeightKind::Constant => {
+            let v = match rng.below(6) {
+                0 => -rng.range(0.2, 5.0),
+                1 => rng.log_uniform(-3.0, 3.0),
+                2 => 0.0,
+                _ => rng.range(0.1, 6.0),
+            };
+            vec![v; n]
+        }
         WeightKind::WithNegatives => (0..n)
             .map(|_| {
                 let v = rng.range(0.2, 5.0);
@@ -229,13 +240,14 @@ pub fn gen_weights(rng: &mut Rng, kind: WeightKind, n: usize, width: Width) -> O
 }
 
 pub fn pick_weight_kind(rng: &mut Rng) -> WeightKind {
-    match rng.weighted(&[3.0, 0.5, 3.0, 1.5, 1.0, 1.0]) {
+    match rng.weighted(&[3.0, 0.5, 3.0, 1.5, 1.0, 1.0, 0.8]) {
         0 => WeightKind::None,
         1 => WeightKind::Ones,
         2 => WeightKind::Mild,
         3 => WeightKind::Wide,
         4 => WeightKind::WithZeros,
-        _ => WeightKind::WithNegatives,
+        5 => WeightKind::WithNegatives,
+        _ => WeightKind::Constant,
     }
 }
 
@@ -332,18 +344,29 @@ pub fn gen_alpha_update(
     if r < 0.25 && !visited.is_empty() {
         return rng.pick(visited).clone();
     }
-    let extreme = allow_extreme && r > 0.92;
+    let extreme = allow_extreme && r > 0.90;
+    // an extreme update hits either every parameter or a single one (so that e.g. a
+    // frequency of exactly 0 or an underflowing decay meets otherwise ordinary parameters)
+    let only: Option<usize> = if extreme && rng.chance(0.6) {
+        Some(rng.usize_in(0, base.len().max(1) - 1))
+    } else {
+        None
+    };
     base.iter()
-        .map(|a| {
-            let v = if extreme {
-                match rng.below(5) {
+        .enumerate()
+        .map(|(k, a)| {
+            let ext_here = extreme && only.map(|o| o == k).unwrap_or(true);
+            let v = if ext_here {
+                match rng.below(7) {
                     0 => -a * rng.log_uniform(-4.0, -2.0),
                     1 => a * 1e-300,
                     2 => 0.0,
                     3 => a * rng.log_uniform(6.0, 30.0),
+                    4 => a * rng.log_uniform(-5.0, -3.0),
+                    5 => -0.0,
                     _ => -a,
                 }
-            } else if r < 0.75 {
+            } else if r < 0.75 || extreme {
                 a * (1.0 + rng.range(-0.4, 0.4))
             } else {
                 a * rng.log_uniform(-0.7, 0.7)
